@@ -217,11 +217,94 @@ def truthiness_of_optional_numbers(fi: FuncInfo) -> List[Tuple[ast.AST, str]]:
   return out
 
 
-def check_forwarding(check, funcs: Iterable[FuncInfo], rule: str = 'R-FORWARD'):
+# ---------------------------------------------------------------------------------------------------------------------
+# Scope: which functions (and, where a property only cares about some of them, which parameters) carry configuration
+# that the property quantifies over. Frozen by reading each property; a function outside a property's scope is none of
+# that property's business even if it lives in one of its anchor files.
+# entry = (file, regex on the qualified name, None | set of parameter names)
+A = 'fedjax/algorithms/'
+CDS = 'fedjax/core/client_datasets.py'
+SCOPES: Dict[str, List[Tuple[str, str, Optional[Set[str]]]]] = {
+    'C01': [(A + 'fed_avg.py', r'.*', None), ('fedjax/core/optimizers.py', r'.*', None),
+            (CDS, r'(ShuffleRepeatBatch.*|ClientDataset\.shuffle_repeat_batch)', None),
+            ('fedjax/core/tree_util.py', r'(tree_mean|tree_weight|tree_inverse_weight|tree_add|tree_sub|_tree.*)', None),
+            ('fedjax/core/for_each_client.py', r'.*', None), ('fedjax/core/models.py', r'(grad|model_grad|model_per_example_loss)(\..*)?', None)],
+    'C02': [('fedjax/core/for_each_client.py', r'.*', None)],
+    'C03': [(CDS, r'(BatchView|PaddedBatchView|BatchHParams|PaddedBatchHParams|ClientDataset\.(batch|padded_batch|__getitem__)|pad_examples|'
+                  r'_pick_final_batch_size|attach_mask|slice_examples|BatchPreprocessor).*', None)],
+    'C04': [(CDS, r'(ShuffleRepeatBatch.*|ClientDataset\.shuffle_repeat_batch)', None), ('fedjax/core/dataclasses.py', r'.*', None),
+            ('fedjax/training/structured_flags.py', r'ShuffleRepeatBatchHParamsFlags.*', None)],
+    'C05': [('fedjax/core/metrics.py', r'.*', None),
+            ('fedjax/core/models.py', r'(evaluate_model|_evaluate_model_step|ModelEvaluator|evaluate_average_loss|AverageLossEvaluator|'
+                                      r'_evaluate_average_loss_step|_finalize_average_loss).*', None)],
+    'C06': [('fedjax/core/models.py', r'(grad|model_grad|evaluate_average_loss|AverageLossEvaluator|_evaluate_average_loss_step|'
+                                      r'_finalize_average_loss).*', None),
+            ('fedjax/core/regularizers.py', r'.*', None), ('fedjax/core/util.py', r'.*', None),
+            (A + 'mime.py', r'.*', {'regularizer'}), (A + 'agnostic_fed_avg.py', r'.*', {'regularizer'}),
+            (A + 'hyp_cluster.py', r'.*', {'regularizer'})],
+    'C07': [('fedjax/core/tree_util.py', r'.*', None), ('fedjax/aggregators/aggregator.py', r'.*', None)],
+    'C08': [('fedjax/core/federated_data.py', r'(FederatedData|SubsetFederatedData|ClientPreprocessor|intersect_slice_ranges).*', None),
+            ('fedjax/core/in_memory_federated_data.py', r'.*', None), ('fedjax/core/sqlite_federated_data.py', r'SQLiteFederatedData\..*', None),
+            (CDS, r'(ClientDataset\.__init__|BatchPreprocessor.*|NoOpBatchPreprocessor.*)', None)],
+    'C09': [('fedjax/training/federated_experiment.py', r'.*', None), ('fedjax/training/checkpoint.py', r'.*', None),
+            ('fedjax/core/serialization.py', r'(save_state|load_state)', None), ('fedjax/core/client_samplers.py', r'.*', None)],
+    'C10': [('fedjax/core/dataclasses.py', r'.*', None)],
+    'C11': [('fedjax/aggregators/compression.py', r'.*', None), ('fedjax/aggregators/walsh_hadamard.py', r'.*', None),
+            ('fedjax/core/tree_util.py', r'(tree_mean|_tree_inverse_weight_eq|tree_weight|_tree_weight_eq|_tree_add_eq)', None)],
+    'C12': [(A + 'fed_avg.py', r'.*', None), (A + 'fed_prox.py', r'.*', None), (A + 'mime.py', r'.*', None), (A + 'mime_lite.py', r'.*', None),
+            (A + 'hyp_cluster.py', r'.*', None), (A + 'apfl.py', r'.*', None), (A + 'agnostic_fed_avg.py', r'.*', None)],
+    'C13': [('fedjax/core/client_samplers.py', r'.*', None),
+            ('fedjax/core/federated_data.py', r'.*\.shuffled_clients', None), ('fedjax/core/in_memory_federated_data.py', r'.*\.shuffled_clients', None),
+            ('fedjax/core/sqlite_federated_data.py', r'.*\.shuffled_clients', None)],
+    'C14': [('fedjax/core/metrics.py', r'.*', None)],
+    'C15': [(CDS, r'(padded_batch_client_datasets|buffered_shuffle.*|concat_examples|_pick_final_batch_size|pad_examples|attach_mask|slice_examples)(\..*)?', None),
+            ('fedjax/core/federated_data.py', r'(padded_batch_federated_data|shuffle_repeat_batch_federated_data|RepeatableIterator.*)', None)],
+    'C16': [('fedjax/core/serialization.py', r'.*', None), ('fedjax/core/sqlite_federated_data.py', r'(SQLiteFederatedDataBuilder|SQLiteFederatedData\.new|'
+                                                                                                     r'decompress_and_deserialize).*', None),
+            ('fedjax/training/checkpoint.py', r'.*', None)],
+    'C17': [(A + 'apfl.py', r'.*', None), (A + 'agnostic_fed_avg.py', r'.*', None), (A + 'hyp_cluster.py', r'.*', None), (A + 'mime_lite.py', r'.*', None),
+            ('fedjax/core/optimizers.py', r'ignore_grads_haiku.*', None)],
+    'C18': [('fedjax/aggregators/walsh_hadamard.py', r'.*', None)],
+    'C19': [('fedjax/datasets/downloads.py', r'.*', None), ('fedjax/datasets/cifar100.py', r'(load_split|load_data|cite)', None),
+            ('fedjax/datasets/emnist.py', r'(load_split|load_data)', None), ('fedjax/datasets/shakespeare.py', r'(load_split|load_data)', None),
+            ('fedjax/datasets/stackoverflow.py', r'(load_split|load_data)', None)],
+    'C20': [('fedjax/datasets/cifar100.py', r'preprocess.*', None), ('fedjax/datasets/emnist.py', r'(domain_id|preprocess.*)', None),
+            ('fedjax/datasets/shakespeare.py', r'(preprocess.*|_build_look_up_table)', None),
+            ('fedjax/datasets/stackoverflow.py', r'(DefaultWordTokenizer|StackoverflowTokenizer|default_vocab|preprocess.*|create_.*).*', None),
+            ('fedjax/models/emnist.py', r'.*', None), ('fedjax/models/cifar100.py', r'.*', None), ('fedjax/models/shakespeare.py', r'.*', None),
+            ('fedjax/models/stackoverflow.py', r'.*', None), ('fedjax/training/tasks.py', r'.*', None)],
+}
+
+
+def scoped_functions(repo: Repo, prop: str) -> List[Tuple[FuncInfo, Optional[Set[str]]]]:
+  import re
+  out: List[Tuple[FuncInfo, Optional[Set[str]]]] = []
+  seen = {}
+  for file, rx, only in SCOPES.get(prop, []):
+    m = next((mm for mm in repo.modules.values() if mm.relpath == file), None)
+    if m is None:
+      continue
+    pat = re.compile(rx + r'$')
+    for fi in m.functions():
+      if pat.match(fi.qualname):
+        if id(fi) in seen:
+          # widen a parameter filter if two entries overlap
+          i = seen[id(fi)]
+          prev = out[i][1]
+          out[i] = (fi, None if (prev is None or only is None) else (prev | only))
+        else:
+          seen[id(fi)] = len(out)
+          out.append((fi, only))
+  return out
+
+
+def check_forwarding(check, funcs, rule: str = 'R-FORWARD'):
+  """funcs: iterable of FuncInfo or (FuncInfo, None | set of parameter names that matter)."""
   repo = check.repo
   n_params = n_sites = 0
   seen = set()
-  for fi in funcs:
+  for item in funcs:
+    fi, only = item if isinstance(item, tuple) else (item, None)
     if id(fi) in seen or fi.module.relpath.endswith('_test.py'):
       continue
     seen.add(id(fi))
@@ -229,11 +312,16 @@ def check_forwarding(check, funcs: Iterable[FuncInfo], rule: str = 'R-FORWARD'):
       continue
     check.analysed(fi)
     n_params += len(_params(fi))
+    rel = (lambda p: True) if only is None else (lambda p: p.lstrip('*') in only)
     for p in unused_params(fi):
+      if not rel(p):
+        continue
       check.ob(rule + '.unused', fi, f'parameter {p}', False,
                f'parameter `{p}` of {fi.qualname} is never read (nor discarded with `del {p}`): what it configures is silently ignored',
                node=fi.node)
     for t, p in truthiness_of_optional_numbers(fi):
+      if not rel(p):
+        continue
       check.ob(rule + '.none-test', fi, f'truth test of {p}', False,
                f'`{p}` is an optional number: testing it by truthiness treats an explicit 0 / 0.0 like "not given" (use `is None`)', node=t)
     try:
@@ -241,6 +329,8 @@ def check_forwarding(check, funcs: Iterable[FuncInfo], rule: str = 'R-FORWARD'):
     except Exception:  # pylint: disable=broad-except
       continue
     for c, g, p in missing_same_name(ff):
+      if not rel(p):
+        continue
       n_sites += 1
       key = (fi.module.name, fi.qualname, g.qualname, p)
       if key in SAME_NAME_EXCEPTIONS:
@@ -257,14 +347,15 @@ def check_forwarding(check, funcs: Iterable[FuncInfo], rule: str = 'R-FORWARD'):
       g = info[0]
       gnames = set(_params(g)) - {'self', 'cls'}
       for p, a in bound_args(ff, c).items():
-        if isinstance(a, ast.Name) and a.id != p and a.id in gnames and p in gnames:
+        if isinstance(a, ast.Name) and a.id != p and a.id in gnames and p in gnames and (rel(p) or rel(a.id)):
           check.ob(rule + '.swapped', fi, txt(c)[:90], False,
                    f'`{a.id}` is passed where {g.qualname} expects `{p}`, although {g.qualname} has a parameter called `{a.id}`: '
                    'the two arguments are in each other\'s place', node=a)
-    for c, how in filtered_kwargs(ff):
-      check.ob(rule + '.kwargs', fi, txt(c)[:90], False,
-               f'the keyword arguments are filtered ({how}) before they are forwarded: some of the caller\'s overrides are dropped', node=c)
-  check.ob(rule, ('fedjax', '<anchor files>'), f'{len(seen)} functions, {n_params} parameters', True,
-           'every parameter is read or explicitly discarded; same-named parameters are passed on to repository callees; **kwargs are '
-           'forwarded unfiltered', nontrivial=False)
+    if only is None:
+      for c, how in filtered_kwargs(ff):
+        check.ob(rule + '.kwargs', fi, txt(c)[:90], False,
+                 f'the keyword arguments are filtered ({how}) before they are forwarded: some of the caller\'s overrides are dropped', node=c)
+  check.ob(rule, ('fedjax', '<functions in scope>'), f'{len(seen)} functions, {n_params} parameters', True,
+           'every parameter is read or explicitly discarded; same-named parameters are passed on to repository callees; optional numbers are '
+           'not tested by truthiness; **kwargs are forwarded unfiltered', nontrivial=False)
   return len(seen)
